@@ -50,6 +50,8 @@ func (it *Iterator) M__next__() (res Object, err error) {
 	}
 	if err != nil {
 		if IsException(IndexError, err) {
+			// once exhausted an iterator stays exhausted, even if the sequence grows later
+			it.Seq = Tuple(nil)
 			return nil, StopIteration
 		}
 		return nil, err
